@@ -29,6 +29,18 @@ let int_of_n (n : BinNums.coq_N) : int = match n with BinNums.N0 -> 0 | BinNums.
 let int_of_z (z : BinNums.coq_Z) : int =
   match z with BinNums.Z0 -> 0 | BinNums.Zpos p -> int_of_pos p | BinNums.Zneg p -> - (int_of_pos p)
 
+(* decimal of any size (usize values above OCaml's 63-bit int, e.g. a chunk_size of 2^63) *)
+let n_of_decimal (s : string) : BinNums.coq_N =
+  if Stdlib.String.length s <= 17 then n_of_int (int_of_string s)
+  else begin
+    let acc = ref BinNums.N0 in
+    let ten = n_of_int 10 in
+    Stdlib.String.iter (fun c ->
+        if c < '0' || c > '9' then failwith "bad decimal";
+        acc := BinNat.N.add (BinNat.N.mul !acc ten) (n_of_int (Char.code c - 48))) s;
+    !acc
+  end
+
 (* shared small numbers: a 1.3 MB payload becomes a list of shared nodes *)
 let small_n : BinNums.coq_N array = Array.init 0x3000 n_of_int
 let n_of_int_shared (n : int) = if n < 0x3000 then small_n.(n) else n_of_int n
@@ -199,9 +211,9 @@ let cd_oracles : Cd.cd_oracles = {
       if a = "-" then [] else SL.map (fun h -> text_of_utf8 (string_of_hex h)) (SS.split_on_char ';' a));
   Cd.alphabet_langs = (fun popular inl ->
       parse_langs (ask ("Q ALPH " ^ hex_of_string (utf8_of_text popular) ^ " " ^ (if inl then "1" else "0"))));
-  Cd.popularity = (fun l popular ->
-      let a = ask ("Q POP " ^ ocaml_string l ^ " " ^ hex_of_string (utf8_of_text popular)) in
-      if a = "ERR" then None else Some (f_of_bits (int_of_string a)));
+  (* cd::characters_popularity_compare: computed by the model itself (strsim::jaro in binary64, then `as f32`:
+     Model/Jaro.v, Model/Jaro32.v); the cd level also compares it directly with the library *)
+  Cd.popularity = (fun l popular -> Obj.magic (Jaro32.popularity32 l popular));
 }
 
 (* ---------- mess detector oracles (per-character, memoised: the answers are functions of the code point) ---------- *)
@@ -278,7 +290,7 @@ let parse_settings (toks : string list) : Detect.settings * int * int =
     let ninc = int_of_string ninc and nexc = int_of_string nexc in
     let inc = SL.init ninc (fun _ -> coq_string (read_tagged "S")) in
     let exc = SL.init nexc (fun _ -> coq_string (read_tagged "S")) in
-    ({ Detect.steps = n_of_int (int_of_string steps); Detect.chunk_size = n_of_int (int_of_string chunk);
+    ({ Detect.steps = n_of_decimal steps; Detect.chunk_size = n_of_decimal chunk;
        Detect.threshold = f_of_bits (int_of_string thr); Detect.include_encodings = inc;
        Detect.exclude_encodings = exc; Detect.preemptive_behaviour = (pre = "1");
        Detect.language_threshold = f_of_bits (int_of_string lthr); Detect.enable_fallback = (fb = "1") }, ninc, nexc)
@@ -288,6 +300,25 @@ let cmd_detect (toks : string list) : unit =
   let cfg, _, _ = parse_settings toks in
   let payload = bytes_of_ocaml (read_tagged "B") in
   print_result (Detect.from_bytes fo oracles payload cfg)
+
+(* DETECTFULL: the same model with the mess detector (Model/Md.v), the coherence scan, the script layers, the Jaro
+   score and the merge (Model/Cd.v, Layers.v, Jaro32.v) computed by the models as well; what is still answered by the
+   library: the codecs (Q DEC / TEST / CDEC), the per-character properties (Q FLAGS / RACC / ISALPHA / LOWER) and
+   alphabet_languages (Q ALPH) *)
+let full_cd_oracles : Cd.cd_oracles = {
+  Cd.layers = (fun t -> Layers.alpha_unicode_split layer_alpha layer_lower t);
+  Cd.alphabet_langs = cd_oracles.Cd.alphabet_langs;
+  Cd.popularity = cd_oracles.Cd.popularity;
+}
+let full_oracles : Detect.oracles = { oracles with
+  Detect.mess = (fun t thr -> Md.mess_ratio fo (Obj.magic Md32.md_consts32) md_oracles t thr);
+  Detect.coh = (fun t thr langs -> Cd.coherence_ratio fo full_cd_oracles t thr langs);
+  Detect.merge = (fun ls -> Cd.merge_coherence_ratios fo ls);
+}
+let cmd_detect_full (toks : string list) : unit =
+  let cfg, _, _ = parse_settings toks in
+  let payload = bytes_of_ocaml (read_tagged "B") in
+  print_result (Detect.from_bytes fo full_oracles payload cfg)
 
 (* CMP c1 h1 u1 c2 h2 u2  -> comparison of two keys *)
 let cmd_cmp (toks : string list) : unit =
@@ -395,6 +426,7 @@ let () =
       let l = input_line stdin in
       match split_sp l with
       | "DETECT" :: rest -> cmd_detect rest
+      | "DETECTFULL" :: rest -> cmd_detect_full rest
       | "CMP" :: rest -> cmd_cmp rest
       | "NAME" :: rest -> cmd_name rest
       | "CONT" :: rest -> cmd_cont rest
@@ -460,6 +492,11 @@ let () =
       | ["SBLM"; n] ->
         let l = SbLangs.sb_langs32 (coq_string (string_of_hex n)) in
         print_string ("R " ^ (if l = [] then "-" else SS.concat "," (SL.map ocaml_string l)) ^ "\n"); flush stdout
+      | ["POPM"; lang; t] ->
+        (match Jaro32.popularity32 (coq_string lang) (text_of_utf8 (string_of_hex t)) with
+         | None -> print_string "R ERR\n"
+         | Some x -> Printf.printf "R %d\n" (bits_of_f (Obj.magic x)));
+        flush stdout
       | ["QUIT"] -> exit 0
       | _ -> failwith ("unknown command " ^ l)
     done
